@@ -6,10 +6,14 @@ import (
 	"strings"
 	"testing"
 
+	envoy "github.com/envoyproxy/go-control-plane/envoy/service/auth/v3"
 	configv1 "github.com/istio-ecosystem/authservice/config/gen/go/v1"
 	mockv1 "github.com/istio-ecosystem/authservice/config/gen/go/v1/mock"
 	oidcv1 "github.com/istio-ecosystem/authservice/config/gen/go/v1/oidc"
+	"google.golang.org/protobuf/proto"
+
 	"github.com/istio-ecosystem/authservice/internal"
+	"github.com/istio-ecosystem/authservice/internal/authz"
 	"github.com/istio-ecosystem/authservice/internal/oidc"
 	"github.com/istio-ecosystem/authservice/internal/server"
 	"github.com/istio-ecosystem/authservice/verif/sim"
@@ -120,7 +124,8 @@ func c08RunSeq(c *sim.Case, chains []c08Chain, allowUnmatched bool, reqs []map[s
 		for id, st := range fac.stores {
 			before[id] = st.Len()
 		}
-		resp, err := f.Check(context.Background(), sim.Req{Scheme: "https", Host: "app.test", Path: "/x", Headers: headers}.Envoy())
+		envReq := sim.Req{Scheme: "https", Host: "app.test", Path: "/x", Headers: headers}.Envoy()
+		resp, err := f.Check(context.Background(), envReq)
 		if err != nil {
 			c.Violation("check-error", "chains=%v headers=%v: %v", chains, headers, err)
 		}
@@ -144,6 +149,12 @@ func c08RunSeq(c *sim.Case, chains []c08Chain, allowUnmatched bool, reqs []map[s
 			case chains[judge].Filters[denier] == 1:
 				if r.IsRedirect() {
 					c.Violation("denial-not-the-deniers", "%s: the mock filter %d of chain %d denies, but the response is %v", desc, denier, judge, r)
+				}
+				// "... whose response is returned as is": what the denying filter answers when asked directly is, member
+				// for member, what the service answers
+				own := &envoy.CheckResponse{}
+				if err := authz.NewMockHandler(&mockv1.MockConfig{Allow: false}).Process(context.Background(), envReq, own); err == nil && !proto.Equal(own, resp) {
+					c.Violation("denial-not-returned-as-is", "%s: the denying mock filter answers %v, the service returns %v", desc, own, resp)
 				}
 			case chains[judge].Filters[denier] == 2:
 				id := fmt.Sprintf("oidc-%d-%d", judge, denier)
@@ -212,6 +223,12 @@ func c08GenChain(c *sim.Case, small bool) c08Chain {
 
 func c08Headers(c *sim.Case, small bool) map[string]string {
 	h := map[string]string{}
+	if !small && sim.Weighted(c, "req.request-id", 2, 1) == 1 {
+		// headers that say nothing about who judges: tracing and the like
+		h["x-request-id"] = "7b2f9c1e-0a4d-4e7b-9d3c-1f5a6b7c8d9e"
+		h["x-b3-traceid"] = "463ac35c9f6413ad48485a3953bb6124"
+		h["user-agent"] = "probe/1.0"
+	}
 	names := []string{"x-tenant", ":authority", "x-other"}
 	if small {
 		names = names[:1]
